@@ -20,6 +20,21 @@ def done_contract(pid):
         err = E.getattr_(st, r, "errored", _n("_result.errored"))[0][1]
         return z3_and(E.truthy(st, r), z3_not(E.truthy(st, err)))
 
+    def not_done_while_rerun_pending(E, st, out):
+        # pydra fix 9617fc81: a result stored by an EARLIER submission must not make a job count as done while the
+        # rerun requested for it is pending -- otherwise its consumers start on the stale value (C15) and it may
+        # never be re-executed (C11)
+        if out.val is False:
+            return True
+        pend = E.getattr_(st, st.env["__entry__"]["self"], "_awaiting_rerun", _n("self._awaiting_rerun"))[0][1]
+        return z3_not(E.truthy(st, pend))
+
+    def no_result_lookup_while_rerun_pending(E, st, exc):
+        if exc.cls != "ValueError":
+            return True
+        pend = E.getattr_(st, st.env["__entry__"]["self"], "_awaiting_rerun", _n("self._awaiting_rerun"))[0][1]
+        return z3_not(E.truthy(st, pend))
+
     def value_error_iff_errored(E, st, exc):
         if exc.cls != "ValueError":
             return True
@@ -36,8 +51,14 @@ def done_contract(pid):
         default_effects=True,
         callees={"has_lazy": {"kind": "pure", "name": "has_lazy", "returns": "Bool"}},
         attrs={"task": {"kind": "U"}, "errored": {"kind": "U"}, "name": {"kind": "U"}},
-        ensures=[("done-only-with-a-stored-unerrored-result", f"property:{pid}", true_only_with_good_result)],
-        raises=[("ValueError-only-for-an-errored-result", f"property:{pid}", value_error_iff_errored)],
+        ensures=[
+            ("done-only-with-a-stored-unerrored-result", f"property:{pid}", true_only_with_good_result),
+            ("not-done-while-a-requested-rerun-is-pending", f"property:{pid}", not_done_while_rerun_pending),
+        ],
+        raises=[
+            ("ValueError-only-for-an-errored-result", f"property:{pid}", value_error_iff_errored),
+            ("no-error-from-a-stale-result-while-a-rerun-is-pending", f"property:{pid}", no_result_lookup_while_rerun_pending),
+        ],
         min_paths=4,
     )
 
